@@ -31,15 +31,30 @@ type sbCase struct {
 
 func hashOf(tag byte) []byte { return bytes.Repeat([]byte{tag}, 20) }
 
-// block ids: nil, A, and A′ differing from A in exactly one component
+// lastByte / firstByte: a hash that differs from h in exactly one byte
+func lastByte(h []byte) []byte {
+	o := append([]byte{}, h...)
+	o[len(o)-1] ^= 0x01
+	return o
+}
+
+func firstByte(h []byte) []byte {
+	o := append([]byte{}, h...)
+	o[0] ^= 0x01
+	return o
+}
+
+// block ids: nil, A, and A′ differing from A in exactly one component (for
+// the hashes: in exactly one byte, the last one, so that a canonical form that
+// abbreviates a hash is caught)
 func blockIDGrid(thorough bool) []types.BlockID {
 	a := types.BlockID{Hash: hashOf(0xA1), PartsHeader: types.PartSetHeader{Total: 3, Hash: hashOf(0xB1)}}
 	g := []types.BlockID{
 		{},
 		a,
-		{Hash: hashOf(0xA2), PartsHeader: a.PartsHeader},
+		{Hash: lastByte(a.Hash), PartsHeader: a.PartsHeader},
 		{Hash: a.Hash, PartsHeader: types.PartSetHeader{Total: 4, Hash: a.PartsHeader.Hash}},
-		{Hash: a.Hash, PartsHeader: types.PartSetHeader{Total: 3, Hash: hashOf(0xB2)}},
+		{Hash: a.Hash, PartsHeader: types.PartSetHeader{Total: 3, Hash: lastByte(a.PartsHeader.Hash)}},
 	}
 	if thorough {
 		g = append(g,
@@ -49,6 +64,9 @@ func blockIDGrid(thorough bool) []types.BlockID {
 			types.BlockID{Hash: a.Hash, PartsHeader: types.PartSetHeader{Total: 0, Hash: a.PartsHeader.Hash}},
 			types.BlockID{Hash: a.Hash, PartsHeader: types.PartSetHeader{Total: 3}},
 			types.BlockID{Hash: a.Hash[:19], PartsHeader: a.PartsHeader},
+			types.BlockID{Hash: firstByte(a.Hash), PartsHeader: a.PartsHeader},
+			types.BlockID{Hash: a.Hash, PartsHeader: types.PartSetHeader{Total: 3, Hash: firstByte(a.PartsHeader.Hash)}},
+			types.BlockID{Hash: a.Hash, PartsHeader: types.PartSetHeader{Total: 1<<32 + 3, Hash: a.PartsHeader.Hash}},
 		)
 	}
 	return g
@@ -56,9 +74,9 @@ func blockIDGrid(thorough bool) []types.BlockID {
 
 func partsGrid(thorough bool) []types.PartSetHeader {
 	p := types.PartSetHeader{Total: 3, Hash: hashOf(0xC1)}
-	g := []types.PartSetHeader{{}, p, {Total: 4, Hash: p.Hash}, {Total: 3, Hash: hashOf(0xC2)}}
+	g := []types.PartSetHeader{{}, p, {Total: 4, Hash: p.Hash}, {Total: 3, Hash: lastByte(p.Hash)}}
 	if thorough {
-		g = append(g, types.PartSetHeader{Total: 3}, types.PartSetHeader{Hash: p.Hash})
+		g = append(g, types.PartSetHeader{Total: 3}, types.PartSetHeader{Hash: p.Hash}, types.PartSetHeader{Total: 3, Hash: firstByte(p.Hash)})
 	}
 	return g
 }
@@ -94,10 +112,10 @@ func (v sbVal) signable() types.Signable {
 
 func sbGrid(thorough bool) []sbVal {
 	var out []sbVal
-	heights := []int64{0, 1, 1<<63 - 1}
+	heights := []int64{0, 1, 1 << 32, 1<<63 - 1}
 	rounds := []int64{0, 1}
 	if thorough {
-		heights = append(heights, 2, 10, 1<<53+1)
+		heights = append(heights, 2, 10, 1<<32+1, 1<<53+1)
 		rounds = append(rounds, 2, 1<<63-1)
 	}
 	nb := len(blockIDGrid(thorough))
